@@ -37,7 +37,7 @@ def expectedShape : List (String × String) := [
   ("func", "(,);expr;uop-only"),
   ("var", "const,var"),
   ("name", "alpha1"),
-  ("const", "double"),
+  ("const", "double;word-guard"),
   ("negcount", "fold_many0-minus"),
   ("compile.arity", "ge"),
   ("compile.ws", "strip"),
